@@ -153,6 +153,14 @@ func runC14(t *testing.T, seed int64, n int, out *Out) {
 				height = maxEnd + int64(r.Intn(3))
 			}
 			ctx = ctx.WithBlockHeight(height)
+			if r.Intn(6) == 0 {
+				// a restart of the chain from its exported state, for the commitment module: ExportGenesis (on a height-only header, as the
+				// node's export makes it) then InitGenesis of exactly that export. Every vesting entry must come through it as it is —
+				// running, elapsed and not yet claimed, or partly cancelled.
+				if ok, _ := genesisRoundTrip(w, ctx, "commitment"); ok {
+					stats["gentrip/commitment"]++
+				}
+			}
 			bal := app.BankKeeper.GetBalance(ctx, addr, payDenom).Amount
 			line := map[string]any{"t": "c14.op", "id": seq, "h": height}
 			var res string
